@@ -212,6 +212,91 @@ Theorem c10_line_program_never_panics :
 Proof. exact line_program_total_end_to_end. Qed.
 
 
+(* ---- the address attributes of DIEs as a reader of the output sees them (convert_attr_address / convert_subprogram, replayed against
+   the (low_pc, high_pc) of every subprogram of every emission): an attribute address is its own image, or the tombstone, never anything
+   else; a subprogram DIE of a kept function covers exactly its emitted body, of a removed function is tombstoned with its size untouched.
+   The side condition low <> 0xFFFFFFFF is needed (last statement) but no module can have a body starting there: a code section is
+   shorter than 2^32 bytes. *)
+From WV Require Import Proofs.Dwarf2.
+Theorem c10_attribute_address_own_image_or_tombstone :
+  forall (t : dtables) (c : ctrans) (a : N),
+         convert_attr_address t c a = a /\ (a = 0 \/ a = dead_code) \/
+         (exists x : N, convert_address t c a true = Some x /\ convert_attr_address t c a = x) \/
+         convert_address t c a true = None /\ convert_attr_address t c a = dead_code.
+Proof. exact attr_address_trichotomy. Qed.
+
+Theorem c10_subprogram_die_covers_emitted_body :
+  forall (t : dtables) (c : ctrans) (r : N * N * N) (s' e' sz' low off : N),
+         tables_wf t ->
+         In r (dt_ranges t) ->
+         lookup (snd r) (ct_franges c) = Some (s', e') ->
+         2 <= sz' ->
+         e' = s' + leb5 sz' + sz' ->
+         ct_start c <= s' ->
+         low = body_start (fst r) ->
+         off = rng_end r - low ->
+         low <> dead_code -> convert_subprogram t c low off = (s' + leb5 sz' - ct_start c, sz').
+Proof. exact subprogram_die_kept. Qed.
+
+Theorem c10_subprogram_die_of_removed_function_tombstoned :
+  forall (t : dtables) (c : ctrans) (r : N * N * N) (low off : N),
+         tables_wf t ->
+         In r (dt_ranges t) ->
+         lookup (snd r) (ct_franges c) = None ->
+         low = body_start (fst r) -> off = rng_end r - low -> convert_subprogram t c low off = (dead_code, off).
+Proof. exact subprogram_die_removed. Qed.
+
+Theorem c10_subprogram_die_low_pc_on_instruction :
+  forall (t : dtables) (c : ctrans) (low off loc x : N),
+         tables_wf t ->
+         In (low, loc) (dt_instrs t) ->
+         lookup loc (ct_imap c) = Some x ->
+         low <> dead_code -> fst (convert_subprogram t c low off) = x - ct_start c.
+Proof. exact subprogram_die_of_instruction_start. Qed.
+
+Theorem c10_tombstone_low_pc_passes_through :
+  body_start (4294967294, 4294967301) = dead_code /\
+         convert_address tomb_tables tomb_trans dead_code true = Some 11 /\
+         convert_subprogram tomb_tables tomb_trans dead_code 6 = (dead_code, 6).
+Proof. exact tombstone_low_pc_passes_through. Qed.
+
+
+(* ---- the explicit-stack DIE cursor (units.rs; Model/DieCursor.v, run against the real cursor on units of random shape): it enumerates a
+   unit in pre-order, each entry exactly once, and stops by itself; zipped with a pre-order walk of an input unit of the same shape
+   (gimli's conversion keeps the shape; the harness checks the document order of every emission) every input DIE meets ITS OWN image, so a
+   recomputed high_pc lands on the DIE it was computed from; without the shape premise it would not (witness) *)
+From WV Require Import Model.DieCursor Proofs.DieCursor.
+Theorem c10_die_cursor_is_preorder :
+  forall root : dtree, visit_all root = preorder root.
+Proof. exact visit_all_is_preorder. Qed.
+
+Theorem c10_die_cursor_terminates_by_itself :
+  forall (root : dtree) (k : nat), visit root (S (dsize root) + k) cursor0 = preorder root.
+Proof. exact visit_more_fuel. Qed.
+
+Theorem c10_die_cursor_each_entry_once :
+  forall root : dtree,
+         length (visit_all root) = dsize root /\
+         (NoDup (preorder root) ->
+          NoDup (visit_all root) /\ (forall i : N, In i (preorder root) <-> In i (visit_all root))).
+Proof. exact visit_all_each_once. Qed.
+
+Theorem c10_high_pc_lands_on_own_die :
+  forall (f : N -> N) (from : dtree),
+         high_pc_pairs from (map_tree f from) = map (fun i : N => (i, f i)) (preorder from).
+Proof. exact high_pc_pairs_own_image. Qed.
+
+Theorem c10_high_pc_needs_same_shape :
+  exists (f : N -> N) (from to : dtree) (i j : N),
+           (forall a b : N, f a = f b -> a = b) /\
+           i <> j /\
+           In i (preorder from) /\
+           In j (preorder from) /\
+           In (i, f j) (high_pc_pairs from to) /\
+           high_pc_pairs from to <> map (fun i0 : N => (i0, f i0)) (preorder from).
+Proof. exact high_pc_pairs_shape_mismatch_refuted. Qed.
+
+
 Print Assumptions c10_row_address_is_its_instruction.
 Print Assumptions c10_row_follows_instruction.
 Print Assumptions c10_removed_code_dropped.
@@ -230,3 +315,13 @@ Print Assumptions c10_line_old_code_refuted.
 Print Assumptions c10_line_example.
 Print Assumptions c10_line_rows_follow_their_instructions.
 Print Assumptions c10_line_program_never_panics.
+Print Assumptions c10_attribute_address_own_image_or_tombstone.
+Print Assumptions c10_subprogram_die_covers_emitted_body.
+Print Assumptions c10_subprogram_die_of_removed_function_tombstoned.
+Print Assumptions c10_subprogram_die_low_pc_on_instruction.
+Print Assumptions c10_tombstone_low_pc_passes_through.
+Print Assumptions c10_die_cursor_is_preorder.
+Print Assumptions c10_die_cursor_terminates_by_itself.
+Print Assumptions c10_die_cursor_each_entry_once.
+Print Assumptions c10_high_pc_lands_on_own_die.
+Print Assumptions c10_high_pc_needs_same_shape.
